@@ -141,6 +141,11 @@ def _variants(desc, cmds, under_test):
                         continue  # a file with only MPilot-style commands is not an EEMS-2 file
                     yield {"with_new": with_new, "with_out": with_out, "mixed": mixed, "defined": defined}, src, ref
                     if mixed is None and defined:
+                        # EEMS 2.0 SYNTAX (no result name, NewFieldName / OutFileName) with the MPilot NAME of the command under test: a
+                        # half-migrated file; the bookkeeping arguments are dropped all the same
+                        half = [(None, ref[i][1] if i == len(v2) - 1 else nm, a) for i, (nm, a) in enumerate(v2)]
+                        yield {"with_new": with_new, "with_out": with_out, "mixed": "bare-command-with-mpilot-name", "defined": True}, half, ref
+                    if mixed is None and defined:
                         # every command written in result form with its EEMS 2.0 name (no bare command in the file): still EEMS 2.0 commands
                         named = [(r[0], nm, a) for r, (nm, a) in zip(ref, v2)]
                         yield {"with_new": with_new, "with_out": with_out, "mixed": "result-form-eems2-names", "defined": True}, named, ref
